@@ -109,7 +109,8 @@ abbrev ZeroingPresent : Prop :=
   TreeSlots.rotateRightZeroesKey = true ∧ TreeSlots.rotateRightZeroesValue = true ∧ TreeSlots.rotateRightZeroesChild = true ∧
   TreeSlots.rotateRightDecLeft = true ∧ TreeSlots.rotateRightInsertsKey = true ∧ TreeSlots.rotateRightInsertsValue = true ∧
   TreeSlots.rotateRightInsertsChild = true ∧
-  TreeSlots.rotateLeftShiftsKeys = true ∧ TreeSlots.rotateLeftShiftsValues = true ∧ TreeSlots.rotateLeftShiftsChildren = true
+  TreeSlots.rotateLeftShiftsKeys = true ∧ TreeSlots.rotateLeftShiftsValues = true ∧ TreeSlots.rotateLeftShiftsChildren = true ∧
+  TreeSlots.rotateRightIncRight = true ∧ TreeSlots.rotateLeftDecRight = true ∧ TreeSlots.rotateLeftIncLeft = true
 
 theorem kind_iff {xl xr : SNode K V C} {lkvs rkvs lkids rkids} (hl : NodeRep xl lkvs lkids) (hr : NodeRep xr rkvs rkids)
     (h : xl.isLeaf = xr.isLeaf) : lkids = [] ↔ rkids = [] := by
@@ -322,7 +323,7 @@ theorem step_mergeTwo (f1 : TreeSlots.removeOneShifts = true) (f2 : TreeSlots.re
 theorem step_rotateRight (f22 : TreeSlots.rotateRightZeroesKey = true) (f23 : TreeSlots.rotateRightZeroesValue = true)
     (f24 : TreeSlots.rotateRightZeroesChild = true) (f25 : TreeSlots.rotateRightDecLeft = true)
     (f26 : TreeSlots.rotateRightInsertsKey = true) (f27 : TreeSlots.rotateRightInsertsValue = true)
-    (f28 : TreeSlots.rotateRightInsertsChild = true)
+    (f28 : TreeSlots.rotateRightInsertsChild = true) (f32 : TreeSlots.rotateRightIncRight = true)
     {fam fam' : Fam K V C} (h : AllClean fam) (p l r idx : Nat)
     (hop : applyOp fam (.rotateRight p l r idx) = some fam') : AllClean fam' := by
   unfold applyOp at hop
@@ -348,7 +349,7 @@ theorem step_rotateRight (f22 : TreeSlots.rotateRightZeroesKey = true) (f23 : Tr
       rw [rr.hn] at g7'
       have hne : lkvs ≠ [] := List.ne_nil_of_length_pos (by omega)
       obtain ⟨p', l', r', hm, rp', rl', rr'⟩ := rotateRightNodes_rep rp rl rr (kind_iff rl rr g5) (idx := idx) (by omega) hne (by omega)
-        f22 f23 f24 f25 f26 f27 f28
+        f22 f23 f24 f25 f26 f27 f28 f32
       simp [hp, hl, hr, g1, g2, g3, g4, g5, g6, g7, hm] at hop
       subst hop
       exact ((h.set p ⟨_, _, rp'⟩).set l ⟨_, _, rl'⟩).set r ⟨_, _, rr'⟩
@@ -357,6 +358,7 @@ theorem step_rotateRight (f22 : TreeSlots.rotateRightZeroesKey = true) (f23 : Tr
 theorem step_rotateLeft (f1 : TreeSlots.removeOneShifts = true) (f2 : TreeSlots.removeOneZeroesLast = true)
     (f29 : TreeSlots.rotateLeftShiftsKeys = true) (f30 : TreeSlots.rotateLeftShiftsValues = true)
     (f31 : TreeSlots.rotateLeftShiftsChildren = true)
+    (f33 : TreeSlots.rotateLeftDecRight = true) (f34 : TreeSlots.rotateLeftIncLeft = true)
     {fam fam' : Fam K V C} (h : AllClean fam) (p l r idx : Nat)
     (hop : applyOp fam (.rotateLeft p l r idx) = some fam') : AllClean fam' := by
   unfold applyOp at hop
@@ -382,7 +384,7 @@ theorem step_rotateLeft (f1 : TreeSlots.removeOneShifts = true) (f2 : TreeSlots.
       rw [rl.hn] at g8'
       have hne : rkvs ≠ [] := List.ne_nil_of_length_pos (by omega)
       obtain ⟨p', l', r', hm, rp', rl', rr'⟩ := rotateLeftNodes_rep rp rl rr (kind_iff rl rr g6) (idx := idx) g4 (by omega) hne (by omega)
-        f1 f2 f29 f30 f31
+        f1 f2 f29 f30 f31 f33 f34
       simp [hp, hl, hr, g1, g2, g3, g4, g5, g6, g7, g8, hm] at hop
       subst hop
       exact ((h.set p ⟨_, _, rp'⟩).set l ⟨_, _, rl'⟩).set r ⟨_, _, rr'⟩
@@ -392,7 +394,7 @@ theorem step_rotateLeft (f1 : TreeSlots.removeOneShifts = true) (f2 : TreeSlots.
 theorem applyOp_clean (hf : ZeroingPresent) {fam fam' : Fam K V C} (h : AllClean fam) (op : NodeOp K V C)
     (hop : applyOp fam op = some fam') : AllClean fam' := by
   obtain ⟨f1, f2, f3, f4, f5, f6, f7, f8, f9, f10, f11, f12, f13, f14, f15, f16, f17, f18, f19, f20, f21, f22, f23, f24,
-    f25, f26, f27, f28, f29, f30, f31⟩ := hf
+    f25, f26, f27, f28, f29, f30, f31, f32, f33, f34⟩ := hf
   cases op with
   | leafInsert i idx k v => exact step_leafInsert f3 h i idx k v hop
   | setValue i idx v => exact step_setValue h i idx v hop
@@ -403,8 +405,8 @@ theorem applyOp_clean (hf : ZeroingPresent) {fam fam' : Fam K V C} (h : AllClean
   | newRoot k v l r => exact step_newRoot h k v l r hop
   | parentInsert i idx k v r => exact step_parentInsert f16 h i idx k v r hop
   | mergeTwo p l r idx => exact step_mergeTwo f1 f2 f17 f18 f19 f20 f21 h p l r idx hop
-  | rotateRight p l r idx => exact step_rotateRight f22 f23 f24 f25 f26 f27 f28 h p l r idx hop
-  | rotateLeft p l r idx => exact step_rotateLeft f1 f2 f29 f30 f31 h p l r idx hop
+  | rotateRight p l r idx => exact step_rotateRight f22 f23 f24 f25 f26 f27 f28 f32 h p l r idx hop
+  | rotateLeft p l r idx => exact step_rotateLeft f1 f2 f29 f30 f31 f33 f34 h p l r idx hop
   | setParent i p => exact step_setParent h i p hop
   | drop i => exact step_drop h i hop
 
